@@ -62,6 +62,27 @@ pub fn lex_offsets(s: &str) -> Vec<OTok> {
     v
 }
 
+/// a block comment, directive or text literal that runs to the end of the file without its closer: such an input is not
+/// a well-formed program whatever its provenance (it can swallow the `end` that closes a block)
+pub fn has_unterminated_token(s: &str) -> bool {
+    lex_offsets(s).iter().any(|t| {
+        let c = &s[t.start + t.ws_len..t.end];
+        match t.kind {
+            RawTokenType::TextLiteral(TextLiteralKind::Unterminated) => true,
+            RawTokenType::Comment(CommentKind::InlineBlock | CommentKind::IndividualBlock | CommentKind::MultilineBlock)
+            | RawTokenType::CompilerDirective
+            | RawTokenType::ConditionalDirective(_) => {
+                if c.starts_with('{') {
+                    !c.ends_with('}')
+                } else {
+                    !(c.ends_with("*)") && c.len() >= 4)
+                }
+            }
+            _ => false,
+        }
+    })
+}
+
 /// byte ranges (start,end) of verbatim regions of `s`: from a `pasfmt off` comment (incl.) to the next
 /// `pasfmt on` comment (incl.) or the end; plus lone `on` comments.
 pub fn verbatim_regions(s: &str, toks: &[OTok]) -> Vec<(usize, usize)> {
@@ -537,9 +558,22 @@ pub fn c12_multiline_strings(input: &str, cfg: &Cfg) -> Vec<String> {
         }
         let vb = mls_value(lb);
         match (va, vb) {
-            (Some((x, _)), Some((y, _))) => {
+            (Some((x, _)), Some((y, ind_out))) => {
                 if x != y {
                     fails.push("c12: value of a multi-line literal changed".to_string());
+                }
+                // alignment clause: closing quotes (hence all interior lines) indented like the opening quotes' line
+                if mls_accepted_for_reindent(la) {
+                    let tok_start = b.start + b.ws_len;
+                    let line_start = out[..tok_start].rfind('\n').map(|p| p + 1).unwrap_or(0);
+                    let line_ind: String = out[line_start..].chars().take_while(|c| is_blank_char(*c) && *c != '\n' && *c != '\r').collect();
+                    if line_ind != ind_out {
+                        fails.push(format!(
+                            "c12: interior lines and closing quotes are not indented like the opening quotes' line ({} vs {} columns)",
+                            ind_out.len(),
+                            line_ind.len()
+                        ));
+                    }
                 }
             }
             _ => fails.push("c12: rewritten literal violates the indentation rule".to_string()),
